@@ -86,6 +86,7 @@ class Decls:
         self.enums = {}     # name -> [(variant name, [field names])]
         self.traits = set()
         self.trait_generics = {}
+        self.assoc_types = {}   # (self type base, trait, associated name) -> type text
         self.impls = {}     # (relfile, line) -> dict(generics=[..], trait=str|None, trait_full, self_ty=str, self_base)
         self.files = {}
         for dp, dn, fn in os.walk(os.path.join(root, 'src')):
@@ -202,8 +203,18 @@ class Decls:
                 self_ty = ' '.join(parts[1].split())
             else:
                 self_ty = ' '.join(head.split())
+            assoc = {}
+            try:
+                k = find_matching(src, j)
+                for am in re.finditer(r'\btype\s+(\w+)\s*=\s*([^;]+);', src[j + 1:k]):
+                    assoc[am.group(1)] = ' '.join(am.group(2).split())
+            except Exception:
+                pass
             self.impls[(rel, line)] = dict(generics=generics, trait=trait, trait_full=trait_full, self_ty=self_ty,
-                                           self_base=base_name(self_ty))
+                                           self_base=base_name(self_ty), assoc=assoc)
+            if trait is not None:
+                for an, av in assoc.items():
+                    self.assoc_types[(base_name(self_ty), trait, an)] = av
 
     def derive_at(self, rel, line, col):
         """an `<impl at file:line:col>` that points into #[derive(...)]: returns (trait, self type name)"""
